@@ -857,6 +857,7 @@ func ruleKeyAgree(r *Run) {
 type guardedLeaf struct {
 	v     ssa.Value
 	facts []guardFact
+	pred  *ssa.BasicBlock // the predecessor block of the last phi edge through which the leaf was selected (nil if none)
 }
 
 // guardedLeaves walks v back through phis, local cells and transparent helpers'
@@ -868,6 +869,7 @@ func (p *Program) guardedLeaves(v ssa.Value) []guardedLeaf {
 		n int
 	}
 	seen := map[key]bool{}
+	var lastPred *ssa.BasicBlock
 	var walk func(v ssa.Value, facts []guardFact, depth int)
 	walk = func(v ssa.Value, facts []guardFact, depth int) {
 		if v == nil || depth > 12 || seen[key{v, len(facts)}] {
@@ -880,7 +882,12 @@ func (p *Program) guardedLeaves(v ssa.Value) []guardedLeaf {
 		switch x := v.(type) {
 		case *ssa.Phi:
 			for i, e := range x.Edges {
+				saved := lastPred
+				if _, nested := e.(*ssa.Phi); !nested {
+					lastPred = x.Block().Preds[i]
+				}
 				walk(e, with(edgeFacts(x.Block().Preds[i], x.Block())), depth+1)
+				lastPred = saved
 			}
 			return
 		case *ssa.Extract:
@@ -925,7 +932,7 @@ func (p *Program) guardedLeaves(v ssa.Value) []guardedLeaf {
 				return
 			}
 		}
-		out = append(out, guardedLeaf{v, facts})
+		out = append(out, guardedLeaf{v, facts, lastPred})
 	}
 	walk(v, nil, 0)
 	return out
@@ -1114,7 +1121,7 @@ func rulePatternVerb(r *Run) {
 					good = false
 					continue
 				}
-				arg := guardedLeaf{c.Call.Args[0], l.facts}
+				arg := guardedLeaf{v: c.Call.Args[0], facts: l.facts}
 				if !fieldLoadOfAssert(arg, "Custom", "Kind") {
 					good = false
 				}
